@@ -54,10 +54,14 @@ def generate(prop, seed, tier):
         G.constant_factors(spec, g)
     if g.random() < 0.15 and menu != 'inf':
         G.add_neq_terminal(spec, g, 'small')
+    if not vit and g.random() < 0.15:
+        G.add_onehot_terminals(spec, g)
     if not vit and g.random() < 0.12:
         # one linear SCC of 3-5 mutually recursive nonterminals (ring + chords): the block elimination order inside the
         # linear solver depends on names and registration order, i.e. on the presentation
         spec = G.ring_chord_spec(g, 'small')
+        if g.random() < 0.4:
+            G.add_onehot_terminals(spec, g)
     npres = g.randrange(3, 5)
     pres = [build.random_presentation(spec, g) for _ in range(npres)]
     cfgs = []
